@@ -524,3 +524,88 @@ def _length_case(job):
         out["problems"].append(f"{route} of length {n} at v{version}: encoded length / sha256 / first two bytes are {got} ({res.verdict} {res.detail}), the reference codec gives {[e.hex() for e in exp]}")
         out["teal"] = teal[:3000]
     return out
+
+
+# ---- C07: named-tuple fields (by name), several named-tuple types alive in one program ------------------------------------------
+# each family: [(class name, [(field name, ARC-4 type)] ...)] - the SAME field names at DIFFERENT positions / with different types
+NT_FAMILIES = [
+    [("Order", [("id", "uint64"), ("price", "uint32"), ("qty", "uint16")]), ("Fill", [("price", "uint32"), ("qty", "uint16"), ("id", "uint64")])],
+    [("A", [("flag", "bool"), ("name", "string"), ("n", "uint8")]), ("B", [("name", "string"), ("n", "uint8"), ("flag", "bool")]), ("C", [("n", "uint64"), ("flag", "bool"), ("name", "string")])],
+    [("P", [("xs", "uint16[]"), ("who", "address"), ("ok", "bool"), ("ok2", "bool")]), ("Q", [("ok", "bool"), ("xs", "uint16[]"), ("ok2", "bool"), ("who", "address")])],
+    [("Solo", [("a", "byte"), ("b", "(uint8,string)"), ("c", "bool[3]")])],
+]
+NT_ORDERS = ("declared", "reversed", "interleaved")
+
+
+def nt_jobs(tier):
+    return [(fi, order, v, in_sub) for fi in range(len(NT_FAMILIES)) for order in NT_ORDERS for v in ((6, 8) if tier == "quick" else (5, 6, 8, 10)) for in_sub in (False, True)]
+
+
+def nt_case(job):
+    fi, order, version, in_sub = job
+    from vf.core import use_repo
+    use_repo()
+    import pyteal as pt
+    from pyteal import abi
+    from algosdk import abi as sabi
+    out = {"job": list(job), "problems": [], "ran": 0}
+    try:
+        fam = NT_FAMILIES[fi]
+        ns = {"abi": abi}
+        classes = {}
+        for cname, fields in fam:
+            ann = "\n".join(f"    {fn}: abi.Field[{_ann(ft)}]" for fn, ft in fields)
+            exec(compile(f"class {cname}(abi.NamedTuple):\n{ann}\n", "<nt>", "exec", dont_inherit=True), ns)
+            classes[cname] = ns[cname]
+        r = random.Random(fi * 31 + version)
+        vals, encs = {}, {}
+        for cname, fields in fam:
+            t = sabi.ABIType.from_string("(" + ",".join(ft for _, ft in fields) + ")")
+            vals[cname] = gen_value(t, r)
+            encs[cname] = sdk_encode(t, vals[cname])
+        names = [c for c, _ in fam]
+        if order == "reversed":
+            names = names[::-1]
+
+        def body():
+            # every type is instantiated (and decoded) before any field is read: the field reads of one type happen while instances of
+            # the other types exist, in the chosen order
+            insts = {c: classes[c]() for c in (names if order != "interleaved" else [c for c, _ in fam])}
+            stmts = [insts[c].decode(pt.Bytes(encs[c])) for c in insts]
+            reads = []
+            for cname, fields in fam:
+                for k, (fn, ft) in enumerate(fields):
+                    reads.append((cname, k, fn, ft))
+            if order == "interleaved":
+                reads.sort(key=lambda x: (x[2], x[0]))
+            elif order == "reversed":
+                reads = reads[::-1]
+            exp = []
+            for cname, k, fn, ft in reads:
+                e = abi.type_spec_from_algosdk(sabi.ABIType.from_string(ft)).new_instance()
+                stmts += [getattr(insts[cname], fn).store_into(e), pt.Log(e.encode())]
+                exp.append(sdk_encode(sabi.ABIType.from_string(ft), vals[cname][k]))
+            body.expected = exp
+            body.labels = [f"{c}.{fn}" for c, _, fn, _ in reads]
+            return pt.Seq(*stmts)
+        teal = pt.compileTeal(wrap(pt, body, in_sub), pt.Mode.Application, version=version)
+        res = run_teal(teal)
+        out["ran"] = 1
+        if res.verdict != "approve" or res.logs != body.expected:
+            k = next((i for i, (a, b) in enumerate(zip(res.logs, body.expected)) if a != b), min(len(res.logs), len(body.expected)))
+            lab = body.labels[k] if k < len(body.labels) else "?"
+            out["problems"].append(f"named-tuple field {lab} (family {[c for c, _ in fam]}, read order {order}): got {res.logs[k].hex()[:40] if k < len(res.logs) else None} "
+                                   f"({res.verdict} {res.detail}), the value's component is {body.expected[k].hex()[:40] if k < len(body.expected) else None}")
+            out["teal"] = teal[:4000]
+    except Exception as e:
+        out["problems"].append(f"exception {type(e).__name__}: {str(e)[:200]}")
+        out["trace"] = traceback.format_exc()[-600:]
+    return out
+
+
+def _ann(t):
+    """ARC-4 type string -> annotation source text (the handful of shapes used above)"""
+    m = {"uint64": "abi.Uint64", "uint32": "abi.Uint32", "uint16": "abi.Uint16", "uint8": "abi.Uint8", "byte": "abi.Byte", "bool": "abi.Bool", "string": "abi.String",
+         "address": "abi.Address", "uint16[]": "abi.DynamicArray[abi.Uint16]", "(uint8,string)": "abi.Tuple2[abi.Uint8, abi.String]",
+         "bool[3]": "abi.StaticArray[abi.Bool, __import__('typing').Literal[3]]"}
+    return m[t]
